@@ -135,6 +135,21 @@ def run(ctx):
                             ctxinfo = dict(case=label, via=via, with_index=with_index, api=api, file=data.hex())
                             if stream is not None and stream.closed:
                                 viol("TdmsFile.%s closed the caller's stream (%s)" % (api, label), **ctxinfo)
+                            if api == "read" and via == "path":
+                                # the same call with arguments that make it fail AFTER the files were opened: a memmap_dir that does not
+                                # exist, and one that is a file
+                                for bad in (os.path.join(tmp, "no-such-dir", "x"), p):
+                                    stats["steps"] += 1
+                                    exc = None
+                                    try:
+                                        T.read(p, memmap_dir=bad)
+                                    except Exception as ex:  # noqa
+                                        exc = ex
+                                    left = open_fds(tmp)
+                                    if left != before:
+                                        viol("after TdmsFile.read(path, memmap_dir=<%s>) %s descriptors remain open: %s (%s)" % (
+                                            "missing directory" if bad != p else "a file", "raised %s" % type(exc).__name__ if exc else "returned", left, label), **ctxinfo)
+                                    del exc
                             if api in ("read", "read_metadata"):
                                 if after != before:
                                     viol("after TdmsFile.%s %s (%s, %s) descriptors remain open: %s" % (
